@@ -222,6 +222,12 @@ func auditFamilies(quick bool, N int) []vexplore.Scenario {
 			add(history{Format: "pbf", Procs: p, K: 0, HeaderAt: -1, Stop: stopCancelOther, Post: "SE", Stalled: true, GateAt: g}, d1)
 		}
 	}
+	// ... and once the stall ends the input only answers with temporary timeout errors
+	for _, p := range []int{1, 2, 12} {
+		for _, g := range []int{1, 3} {
+			add(history{Format: "pbf", Procs: p, K: 0, HeaderAt: -1, Stop: stopCancelOther, Post: "SEC", Stalled: true, GateAt: g, TempErr: true}, d1)
+		}
+	}
 
 	// family 2: two scanners on one context
 	for _, p := range []int{1, 2} {
